@@ -34,6 +34,7 @@ structure DispOutcome (r : Nat) (s : State) (ok : Bool) (s' : State) : Prop wher
   presel_cleared : (s'.obj r).toDisplace = none
   labels_same : (s'.obj r).labels = (s.obj r).labels
   kind_same : (s'.obj r).kind = (s.obj r).kind
+  att_same : (s'.obj r).maxAttempts = (s.obj r).maxAttempts
   ctx_same : { s'.ctx with moving := [] } = { s.ctx with moving := [] }
   fail_atoms : ok = false → s'.atoms = s.atoms ∧ (s'.obj r).displaced = none
   ok_atoms : ok = true → ∃ l d,
@@ -55,6 +56,7 @@ theorem dispCore_spec (r : Nat) (m1 : MoveObj) (s1 : State) (l : Int) (hl : m1.t
     let res := dispCore r m1 s1
     res.2.heap.length = s1.heap.length ∧ (∀ r', r' ≠ r → res.2.heap[r']? = s1.heap[r']?) ∧
     (res.2.obj r).toDisplace = none ∧ (res.2.obj r).labels = m1.labels ∧ (res.2.obj r).kind = m1.kind ∧
+    (res.2.obj r).maxAttempts = m1.maxAttempts ∧
     { res.2.ctx with moving := [] } = { s1.ctx with moving := [] } ∧
     (res.1 = false → res.2.atoms = s1.atoms ∧ (res.2.obj r).displaced = none) ∧
     (res.1 = true → ∃ d, res.2.atoms = applyDisp s1.atoms (whereEq m1.labels l) d m1.applyConstraints ∧
@@ -77,8 +79,9 @@ theorem dispCore_spec (r : Nat) (m1 : MoveObj) (s1 : State) (l : Int) (hl : m1.t
       rcases hatoms with ⟨h, _⟩ | ⟨_, d, hd⟩
       · cases h
       · exact ⟨d, hd⟩
-    refine ⟨by simp [State.setObj, hheap, h2heap], ?_, ?_, ?_, ?_, ?_, ?_, ?_⟩
+    refine ⟨by simp [State.setObj, hheap, h2heap], ?_, ?_, ?_, ?_, ?_, ?_, ?_, ?_⟩
     · intro r' hne; rw [heap_setObj_ne _ _ _ _ hne, hheap, h2heap]
+    · rw [obj_setObj _ _ _ hlen3]
     · rw [obj_setObj _ _ _ hlen3]
     · rw [obj_setObj _ _ _ hlen3]
     · rw [obj_setObj _ _ _ hlen3]
@@ -94,8 +97,9 @@ theorem dispCore_spec (r : Nat) (m1 : MoveObj) (s1 : State) (l : Int) (hl : m1.t
       rcases hatoms with ⟨_, ha⟩ | ⟨h, _⟩
       · exact ha
       · cases h
-    refine ⟨by simp [State.setObj, hheap, h2heap], ?_, ?_, ?_, ?_, ?_, ?_, ?_⟩
+    refine ⟨by simp [State.setObj, hheap, h2heap], ?_, ?_, ?_, ?_, ?_, ?_, ?_, ?_⟩
     · intro r' hne; rw [heap_setObj_ne _ _ _ _ hne, hheap, h2heap]
+    · rw [obj_setObj _ _ _ hlen3]
     · rw [obj_setObj _ _ _ hlen3]
     · rw [obj_setObj _ _ _ hlen3]
     · rw [obj_setObj _ _ _ hlen3]
@@ -128,16 +132,17 @@ theorem dispCall_spec (r : Nat) (s : State) (hr : r < s.heap.length) :
   cases htd : (s.obj r).toDisplace with
   | some l0 =>
     simp only []
-    obtain ⟨h1, h2, h3, h4, hk, h5, h6, h7⟩ := dispCore_spec r (s.obj r) s l0 htd hr
-    exact ⟨h1, h2, h3, h4, hk, h5, h6, fun h => by
+    obtain ⟨h1, h2, h3, h4, hk, hat, h5, h6, h7⟩ := dispCore_spec r (s.obj r) s l0 htd hr
+    exact ⟨h1, h2, h3, h4, hk, hat, h5, h6, fun h => by
       obtain ⟨d, hd, hdis⟩ := h7 h
       exact ⟨l0, d, hd, hdis, Or.inl htd⟩⟩
   | none =>
     simp only []
     by_cases hu : (uniqueLabels (s.obj r).labels).isEmpty = true
     · simp only [hu, if_true]
-      refine ⟨by simp [State.setObj], ?_, ?_, ?_, ?_, ?_, ?_, ?_⟩
+      refine ⟨by simp [State.setObj], ?_, ?_, ?_, ?_, ?_, ?_, ?_, ?_⟩
       · intro r' hne; rw [heap_setObj_ne _ _ _ _ hne]
+      · rw [obj_setObj _ _ _ hr]
       · rw [obj_setObj _ _ _ hr]
       · rw [obj_setObj _ _ _ hr]
       · rw [obj_setObj _ _ _ hr]
@@ -148,11 +153,11 @@ theorem dispCall_spec (r : Nat) (s : State) (hr : r < s.heap.length) :
       have hne : uniqueLabels (s.obj r).labels ≠ [] := by
         intro h; rw [h] at hu; simp at hu
       have hmem := choice_mem (uniqueLabels (s.obj r).labels) 0 s.inp hne
-      obtain ⟨h1, h2, h3, h4, hk, h5, h6, h7⟩ :=
+      obtain ⟨h1, h2, h3, h4, hk, hat, h5, h6, h7⟩ :=
         dispCore_spec r { (s.obj r) with toDisplace := some (choice (uniqueLabels (s.obj r).labels) 0 s.inp).1 }
           { s with inp := (choice (uniqueLabels (s.obj r).labels) 0 s.inp).2 }
           (choice (uniqueLabels (s.obj r).labels) 0 s.inp).1 rfl hr
-      exact ⟨h1, h2, h3, h4, hk, h5, h6, fun h => by
+      exact ⟨h1, h2, h3, h4, hk, hat, h5, h6, fun h => by
         obtain ⟨d, hd, hdis⟩ := h7 h
         exact ⟨_, d, hd, hdis, Or.inr ⟨htd, hmem⟩⟩⟩
 
